@@ -39,7 +39,7 @@ static void battery(const Case &c) {
     const bool large = cfg.size > 64;
     Instance in(cfg);
     PersistentAccess rc;
-    if (in.st.data.address != cfg.data_addr() || in.st.checksum.address != cfg.place || in.st.checksum.size != cfg.cssize()) { F(c, "setup:addresses", "data/checksum address not as configured"); return; }
+    if (in.st.data.address != M().origin + cfg.data_addr() || in.st.checksum.address != M().origin + cfg.place || in.st.checksum.size != cfg.cssize()) { F(c, "setup:addresses", "data/checksum address not as configured"); return; }
     Bytes model(cfg.size);
     for (auto &b : model) b = rng.byte();
     // ---- full store
@@ -165,7 +165,7 @@ static void run() {
     auto &a = vp::args();
     vp::CaseScope scope([] { return serc(g_cur); });
     size_t maxsize = a.thorough() ? 64 : 24;
-    vp::stats().rule = vp::fmt("enum: data size 1..%zu x placement {0,1,5,40} x {default trivial sum, CRC-16/ARC, 32-bit sum} x aux buffer {none, sizes 0..size+1} x order of place/sum calls (incl. instances first configured with the checksum of the other width and then re-configured); per configuration: "
+    vp::stats().rule = vp::fmt("enum: data size 1..%zu x placement {0,1,5,40} x {default trivial sum, CRC-16/ARC, 32-bit sum} x aux buffer {none, sizes 0..size+1} x order of place/sum calls, and with the medium mapped so that the instance ends at address 0xffffffff (incl. instances first configured with the checksum of the other width and then re-configured); per configuration: "
                                "full store, every (offset,length) partial store/fetch incl. refused and arithmetic-overflow pairs, every single-octet alteration x 3 deltas, stores over a medium altered out of band and of an image with the same octet sum as the stored one, reset with 3 fill values; "
                                "every medium access is logged and checked against the instance's region; medium-call budget per operation; plus data sizes 255..257, 65535..65537, 70000 (thorough: 2^17+-1) with aux sizes around 2^8/2^16 and sampled part accesses/alterations", maxsize);
     vp::stats().exhaustive = true;
@@ -186,6 +186,15 @@ static void run() {
                         if (vp::want_sample()) vp::sample(serc(c));
                         if (vp::too_many_failures()) return;
                     }
+    // the same battery with the medium mapped at the top of the 32-bit address space: the instance's last octet has the address 0xffffffff
+    for (size_t size = 1; size <= maxsize; size++) for (int cs = 0; cs < 3; cs++) for (long aux : {-1L, 0L, 1L, 3L, (long)size, (long)size + 1}) {
+        if (idx++ % a.nshards != a.shard) continue;
+        Case c{{size, 5, cs, aux, (int)(size % 2)}, a.seed}; c.cfg.top = 1;
+        if (aux == 0 && vp::excluded("validate:no-progress")) { vp::stats().excluded++; continue; }
+        battery(c);
+        vp::nontrivial(vp::fnv(ser(c.cfg))); vp::cls("medium-at-the-top-of-the-address-space");
+        if (vp::too_many_failures()) return;
+    }
     large_configs(a.thorough());
 }
 // data portions at the 2^8 / 2^16 / 2^17 boundaries (a length or count kept in 8 or 16 bits shows here)
